@@ -80,12 +80,51 @@ func (e *Engine) invoke(st *State, fnv Value, args []Value, c *ssa.CallCommon, d
 	}
 	// unknown function value (client callback): unconstrained result
 	res := e.havoc(st, resultType(c.Signature()), "cb")
-	st.addTrace(TraceEv{Kind: "callback", Pos: pos, Args: args, Extra: res, Typ: resultType(c.Signature())})
-	if e.callbacksWriteDB {
-		// a client callback may itself use the API: the tables are arbitrary afterwards (snapshot kept for contracts)
-		e.havocDB(st, "aftercb")
+	// pointer-typed results (and pointer fields of struct results) may be nil: one path per choice
+	alts := []Value{res}
+	if tup, ok := res.(VTuple); ok {
+		for i, el := range tup.E {
+			switch x := el.(type) {
+			case VPtr:
+				n := len(alts)
+				for j := 0; j < n; j++ {
+					t2 := alts[j].(VTuple)
+					ne := append([]Value{}, t2.E...)
+					ne[i] = VNil{}
+					alts = append(alts, VTuple{ne})
+				}
+			case VStruct:
+				for fi, fv := range x.F {
+					if _, isPtr := fv.(VPtr); isPtr {
+						n := len(alts)
+						for j := 0; j < n; j++ {
+							t2 := alts[j].(VTuple)
+							ne := append([]Value{}, t2.E...)
+							sv := ne[i].(VStruct)
+							nf := append([]Value{}, sv.F...)
+							nf[fi] = VNil{}
+							ne[i] = VStruct{nf}
+							alts = append(alts, VTuple{ne})
+						}
+					}
+				}
+			}
+		}
+	} else if _, ok := res.(VPtr); ok {
+		alts = append(alts, VNil{})
 	}
-	k(st, res)
+	for ai, alt := range alts {
+		s2 := st
+		if ai < len(alts)-1 {
+			s2 = st.clone()
+		}
+		s2.addTrace(TraceEv{Kind: "callback", Pos: pos, Args: args, Extra: alt, Typ: resultType(c.Signature())})
+		if e.callbacksWriteDB {
+			// a client callback may itself use the API: the tables are arbitrary afterwards (snapshot kept for contracts)
+			e.havocDB(s2, "aftercb")
+		}
+		k(s2, alt)
+	}
 }
 
 func resultType(sig *types.Signature) types.Type {
